@@ -280,6 +280,24 @@ struct Custom {
     c: Vec<i64>,
 }
 
+/// an encode that the library must refuse *after* it has produced some output; whatever is encoded
+/// next on this thread must not be affected
+fn refused_encode(rep: &mut Report, rng: &mut Rng) {
+    use crate::typed::{FailAfter, bad_keys};
+    let k = rng.below(4);
+    let r = match rng.below(4) {
+        0 => guard(|| enc(Json(FailAfter(k))).is_err()),
+        1 => guard(|| enc(Json(bad_keys())).is_err()),
+        2 => guard(|| Footer::encode(&Json(FailAfter(k)), &mut Vec::new()).is_err()),
+        _ => guard(|| Footer::encode(&Json(bad_keys()), &mut Vec::new()).is_err()),
+    };
+    match r {
+        Ok(true) => rep.count("refused-encodes-before-a-checked-encode"),
+        Ok(false) => rep.violation("C14|json|unencodable-value-encoded", json!({"what": "a value whose Serialize impl fails (or a map with non-string keys) was encoded without error"})),
+        Err(pn) => rep.violation("C14|json|encode-panic", json!({"panic": pn})),
+    }
+}
+
 fn json_wrapper_cases(opts: &Opts, rep: &mut Report, idx: &mut u64) {
     for _ in 0..opts.size(3000, 50000) {
         *idx += 1;
@@ -298,6 +316,9 @@ fn json_wrapper_cases(opts: &Opts, rep: &mut Report, idx: &mut u64) {
             _ => rng.pick(&["", " ", "null", "[]", "{}", "0", "{\"a\":1}x", "{\"a\":1} ", "\u{feff}{}", "[1,]", "{\"a\":1,}", "1e999", "-0", "\"\\ud800\""]).to_string(),
         };
         rep.case("json-wrapper", fnv(text.as_bytes()), true);
+        if rng.chance(1, 3) {
+            refused_encode(rep, &mut rng);
+        }
         let a = guard(|| <Json<Value> as Payload>::decode(text.as_bytes()).map(|j| j.0).map_err(|e| e.to_string()));
         let b = serde_json::from_slice::<Value>(text.as_bytes()).map_err(|e| e.to_string());
         match a {
@@ -365,7 +386,9 @@ pub fn run(opts: &Opts) {
             let jti = s(3, &mut rng);
             let mut t = |bit: u32, rng: &mut Rng| if pattern & (1 << bit) != 0 { Some(gen_ts(rng)) } else { None };
             let c = RegisteredClaims { iss, sub, aud, jti, exp: t(4, &mut rng), nbf: t(5, &mut rng), iat: t(6, &mut rng) };
-            let _ = rep_i;
+            if rep_i % 4 == 1 {
+                refused_encode(&mut rep, &mut rng);
+            }
             roundtrip_case(&mut rep, c, "presence-pattern");
         }
     }
@@ -411,7 +434,7 @@ pub fn run(opts: &Opts) {
     json_wrapper_cases(opts, &mut rep, &mut idx);
     rep.set(
         "rule",
-        json!("(1) all 2^7 presence patterns of RegisteredClaims x strings (ASCII, escapes, NUL, U+2028, astral plane, random scalar values, 64 KiB) x timestamps (jiff MIN/MAX, epoch +-1ns, whole seconds, random at ns resolution): encode, inspect the wire form with serde_json::Value (object, only present claims, strings equal, timestamps parsed by the harness's own strict RFC 3339 parser and compared to the nanosecond for years 0000..9999), decode and compare field-wise; (2) generated JSON objects with unknown / duplicated / null / wrong-typed / deeply nested members and several timestamp spellings, plus permutations of the seven members: whenever decode succeeds every claim must equal what serde_json::Value reads for that member; (3) Json<T> payload and footer wrappers against serde_json::{to_vec, from_slice}, empty footer rejected; distinct = distinct claims values / input texts"),
+        json!("(1) all 2^7 presence patterns of RegisteredClaims x strings (ASCII, escapes, NUL, U+2028, astral plane, random scalar values, 64 KiB) x timestamps (jiff MIN/MAX, epoch +-1ns, whole seconds, random at ns resolution): encode, inspect the wire form with serde_json::Value (object, only present claims, strings equal, timestamps parsed by the harness's own strict RFC 3339 parser and compared to the nanosecond for years 0000..9999), decode and compare field-wise; (2) generated JSON objects with unknown / duplicated / null / wrong-typed / deeply nested members and several timestamp spellings, plus permutations of the seven members: whenever decode succeeds every claim must equal what serde_json::Value reads for that member; (3) Json<T> payload and footer wrappers against serde_json::{to_vec, from_slice}, empty footer rejected; a third of the encodes are preceded on the same thread by an encode that must be refused after producing output (failing Serialize impl, non-string map keys); distinct = distinct claims values / input texts"),
     );
     rep.finish(opts);
 }
